@@ -459,4 +459,49 @@ def r11_s(ctx):
     ctx.include(c01.r01_10, "R11.S")
 
 
-RULES = [("R11.1", r11_1), ("R11.2", r11_2), ("R11.3", r11_3), ("R11.4", r11_4), ("R11.5", r11_5), ("R11.6", r11_6), ("R11.7", r11_7), ("R11.8", r11_8), ("R11.S", r11_s)]
+def r11_9(ctx):
+    """the table of wanted indices is consulted with the element's POSITION: in get_many_index(_unchecked) every keyed access
+    to the MultiIndex parameter (get / index / contains_key / binary_search ...) uses the element counter - the local that
+    starts at 0 and is incremented on the ',' edge - and not a counter that only advances when a wanted element was found
+    (a match cursor is right only if the wanted indices were inserted in ascending order)"""
+    prog = ctx.prog()
+    for name in ("Parser::get_many_index", "Parser::get_many_index_unchecked"):
+        f = _p(prog, name)
+        # counters: locals defined by a constant 0 and by `+ 1`
+        counters = {}
+        for L in range(len(f.locals)):
+            ds = f.defs.get(L, [])
+            inits = [d for d in ds if d[0] == "stmt" and d[3]["rv"]["k"] == "use" and op_int(d[3]["rv"]["op"]) == 0]
+            incs = []
+            for d in ds:
+                if d[0] == "stmt" and d not in inits:
+                    found, leaves = _store_arith(f, d[3], "Add")
+                    if found and any(lf[0] == "const" and op_int(lf[1]) == 1 for lf in leaves):
+                        incs.append(d)
+            if inits and incs and len(inits) + len(incs) == len(ds):
+                on_comma = all(any(f.dominates(x, d[1]) and not any(f.dominates(y, d[1]) for vv, y in t["targets"] if int(vv) != 44)
+                                   for bb, t in f.terms() if t["k"] == "switch" and t.get("dty") == "u8" for v, x in t["targets"] if int(v) == 44) for d in incs)
+                counters[L] = on_comma
+        elem = {L for L, oc in counters.items() if oc}
+        other = {L for L, oc in counters.items() if not oc}
+        keyed = []
+        for b, t in f.calls():
+            if len(t["args"]) < 2 or op_local(t["args"][0]) is None:
+                continue
+            nm = t["callee"].rsplit("::", 1)[-1]
+            if nm not in ("get", "get_mut", "index", "index_mut", "contains_key", "get_key_value", "binary_search", "binary_search_by_key", "get_unchecked", "binary_search_by"):
+                continue
+            recv = backward_slice(f, [op_local(t["args"][0])])[1]
+            if not any(lf[0] == "param" and "PointerTreeNode" in f.locals[lf[1]]["ty"] or (lf[0] == "param" and "MultiIndex" in f.locals[lf[1]]["ty"]) for lf in recv):
+                continue
+            ksl = backward_slice(f, [op_local(a) for a in t["args"][1:] if op_local(a) is not None], through_calls=False)[0]
+            keyed.append((t, bool(ksl & elem), sorted(ksl & other)))
+        ok = bool(keyed) and all(e and not o for t, e, o in keyed)
+        bad = [t for t, e, o in keyed if not e or o]
+        ctx.ob("R11.9", f"{name.rsplit('::', 1)[-1]}:table-keyed-by-position", ok, f.loc(bad[0]["ln"] if bad else None),
+               f"{len(keyed)} keyed access(es) to the index table, each by the element counter" if ok else
+               ("no keyed access to the index table found (fail closed)" if not keyed else
+                "the index table is accessed with a counter that advances only on a match (a cursor), not with the element's position: wanted indices added in non-ascending order are never found and the call fails with GetIndexOutOfArray"))
+
+
+RULES = [("R11.1", r11_1), ("R11.2", r11_2), ("R11.3", r11_3), ("R11.4", r11_4), ("R11.5", r11_5), ("R11.6", r11_6), ("R11.7", r11_7), ("R11.8", r11_8), ("R11.9", r11_9), ("R11.S", r11_s)]
